@@ -13,6 +13,7 @@
 package lexer
 
 import (
+	"errors"
 	"strings"
 
 	"github.com/paulsonkoly/calc/types/token"
@@ -54,6 +55,11 @@ func (l *Lexer) Next() bool {
 		}
 
 		str := st(c)
+
+		if str.err == ErrUnterminatedString && s > 0 {
+			// a NUL character in the text, not the end of the input: more input cannot complete this literal
+			str.err = errors.New("Lexer: unexpected NUL character in string literal")
+		}
 
 		if str.err != nil {
 			l.Err = str.err
